@@ -205,6 +205,8 @@ def build_items(ctx):
     items.append(("cat", "cat:conditional_import", mm.PIN_COND_FILES, mm.PIN_COND_LINES, mm.PIN_COND_EVENTS))
     for ident, files, lines, events in mm.local_copy_cases():
         items.append(("cat", ident, files, lines, events))
+    for ident, files, lines, events in mm.exported_class_cases():
+        items.append(("cat", ident, files, lines, events))
     # drop duplicates (same files) among the enumerated projects
     uniq = []
     for it in items:
